@@ -37,48 +37,51 @@ Qed.
 Lemma scaled_angle x dt : x / lam * (dt * lam) = x * dt.
 Proof. field. lra. Qed.
 
-Lemma di_tmp2_scaling thr x dt : 0 < thr ->
-  di_tmp2 RO thr (x / lam) (dt * lam) = cscal RO lam (di_tmp2 RO thr x dt).
+Lemma Ic_scaling x dt : Ic (x / lam) (dt * lam) = lam * Ic x dt.
 Proof.
-  intros H0. destruct (Rlt_le_dec (Rabs (x * dt)) thr) as [H|H].
-  - rewrite !di_tmp2_masked by (rewrite ?scaled_angle; exact H). apply c_eq; csimp; ring.
-  - assert (Hx : x <> 0) by exact (unmasked_nz thr x dt H0 H).
-    rewrite !di_tmp2_unmasked by (rewrite ?scaled_angle; exact H). rewrite scaled_angle.
-    apply c_eq; csimp; field; lra.
+  destruct (Req_dec x 0) as [->|Hx].
+  - replace (0 / lam) with 0 by (unfold Rdiv; ring). rewrite !Ic_0. ring.
+  - assert (x / lam <> 0) by (intros E; apply Hx; apply (Rmult_eq_reg_r (/ lam)); [unfold Rdiv in E; rewrite E; ring | apply Rinv_neq_0_compat; lra]).
+    rewrite !Ic_nz by auto. rewrite scaled_angle. field. split; lra.
 Qed.
+Lemma Is_scaling x dt : Is (x / lam) (dt * lam) = lam * Is x dt.
+Proof.
+  destruct (Req_dec x 0) as [->|Hx].
+  - replace (0 / lam) with 0 by (unfold Rdiv; ring). rewrite !Is_0. ring.
+  - assert (x / lam <> 0) by (intros E; apply Hx; apply (Rmult_eq_reg_r (/ lam)); [unfold Rdiv in E; rewrite E; ring | apply Rinv_neq_0_compat; lra]).
+    rewrite !Is_nz by auto. rewrite scaled_angle. field. split; lra.
+Qed.
+Lemma di_tmp2_scaling x dt : di_tmp2 RO (x / lam) (dt * lam) = cscal RO lam (di_tmp2 RO x dt).
+Proof. rewrite !di_tmp2_val, Ic_scaling, Is_scaling. apply c_eq; csimp; ring. Qed.
 
 Lemma di_tmp1_scaling thr x dt : 0 < thr ->
   di_tmp1 RO thr (x / lam) (dt * lam) = cscal RO (lam * lam) (di_tmp1 RO thr x dt).
 Proof.
-  intros H0. unfold di_tmp1. rewrite di_tmp2_scaling by auto.
+  intros H0. unfold di_tmp1. rewrite di_tmp2_scaling.
   change (omul RO (x / lam) (dt * lam)) with (x / lam * (dt * lam)). rewrite scaled_angle.
   change (omul RO x dt) with (x * dt).
   destruct (Rlt_le_dec (Rabs (x * dt)) thr) as [H|H].
-  - rewrite !ltabs_true by exact H. rewrite !cite_true. apply c_eq; unfold o2; csimp; field.
+  - rewrite !ltabs_true by exact H. rewrite !cite_true. apply c_eq; csimp; ring.
   - assert (Hx : x <> 0) by exact (unmasked_nz thr x dt H0 H).
-    rewrite !ltabs_false by exact H. rewrite !cite_false. apply c_eq; csimp; field; lra.
+    rewrite !ltabs_false by exact H. rewrite !cite_false.
+    apply c_eq; unfold cdivr, csub, cmul, cscal, cexp; simpl; field; lra.
 Qed.
 
-Lemma di_nz_scaling thr thr_y x b dt : 0 < thr -> 0 < thr_y -> b <> 0 ->
-  di_nz RO thr thr_y (x / lam) (b / lam) (dt * lam) = cscal RO (lam * lam) (di_nz RO thr thr_y x b dt).
+Lemma di_nz_scaling x b dt : b <> 0 ->
+  di_nz RO (x / lam) (b / lam) (dt * lam) = cscal RO (lam * lam) (di_nz RO x b dt).
 Proof.
-  intros H0 H0y Hb. unfold di_nz. rewrite di_tmp2_scaling by auto.
+  intros Hb. unfold di_nz.
   change (oadd RO (x / lam) (b / lam)) with (x / lam + b / lam). change (oadd RO x b) with (x + b).
   replace (x / lam + b / lam) with ((x + b) / lam) by (field; lra).
-  change (omul RO ((x + b) / lam) (dt * lam)) with ((x + b) / lam * (dt * lam)). rewrite scaled_angle.
-  change (omul RO (x + b) dt) with ((x + b) * dt).
-  destruct (Rlt_le_dec (Rabs ((x + b) * dt)) thr_y) as [H|H].
-  - rewrite !ltabs_true by exact H. rewrite !cite_true. apply c_eq; unfold cdivr; csimp; field; lra.
-  - assert (Hy : x + b <> 0) by exact (unmasked_nz thr_y (x + b) dt H0y H).
-    rewrite !ltabs_false by exact H. rewrite !cite_false. apply c_eq; unfold cdivr; csimp; field; lra.
+  rewrite !di_tmp2_scaling. apply c_eq; unfold cdivr, cadd, cneg, cscal; simpl; field; lra.
 Qed.
 
 (* gradient._derivative_integral is exactly homogeneous of degree 2 under a change of the time unit *)
-Theorem time_scaling thr_dE thr_x thr_y w ev dt p q m n : 0 < thr_dE -> 0 < thr_x -> 0 < thr_y ->
-  deriv_integral_entry RO (thr_dE, thr_x, thr_y) (w / lam) (map (fun e => e / lam) ev) (dt * lam) p q m n
-  = cscal RO (lam * lam) (deriv_integral_entry RO (thr_dE, thr_x, thr_y) w ev dt p q m n).
+Theorem time_scaling thr_dE thr_s w ev dt p q m n : 0 < thr_dE -> 0 < thr_s ->
+  deriv_integral_entry RO (thr_dE, thr_s) (w / lam) (map (fun e => e / lam) ev) (dt * lam) p q m n
+  = cscal RO (lam * lam) (deriv_integral_entry RO (thr_dE, thr_s) w ev dt p q m n).
 Proof.
-  intros H1 H2 H3. unfold deriv_integral_entry. rewrite !vg_map_div.
+  intros H1 H2. unfold deriv_integral_entry. cbn [fst snd]. rewrite !vg_map_div.
   change (osub RO (vg RO ev p / lam) (vg RO ev q / lam)) with (vg RO ev p / lam - vg RO ev q / lam).
   change (osub RO (vg RO ev p) (vg RO ev q)) with (di_b ev p q).
   replace (vg RO ev p / lam - vg RO ev q / lam) with (di_b ev p q / lam) by (unfold di_b; field; lra).
@@ -90,7 +93,7 @@ Proof.
   change (omul RO (di_b ev p q) dt) with (di_b ev p q * dt).
   destruct (Rlt_le_dec (Rabs (di_b ev p q * dt)) thr_dE) as [H|H].
   - rewrite !ltabs_true by exact H. rewrite !cite_true. apply di_tmp1_scaling; auto.
-  - rewrite !ltabs_false by exact H. rewrite !cite_false. apply di_nz_scaling; auto.
+  - rewrite !ltabs_false by exact H. rewrite !cite_false. apply di_nz_scaling.
     exact (unmasked_nz thr_dE _ dt H1 H).
 Qed.
 End Scaling.
